@@ -209,6 +209,56 @@ def run_connect_all(ctx, circ, msets, rep):
     return True
 
 
+def query_after_edit(ctx, rng, i):
+    """base-name / mode-name queries must describe the pins the *structure* has now: after a neighbour was removed
+    (remove_structure takes the facing pins away) and after the model behind an earlier placement was re-labelled"""
+    L = impl.lk()
+    modes = rng.sample(MODES, rng.randint(1, 3))
+    kind = rng.choice(["neighbour-removed", "model-relabelled"])
+    rep = {"kind": "query-after-edit", "variant": kind, "modes": modes}
+    ctx.case(rep, tags=["stream:query-after-edit", f"variant:{kind}"])
+    run_query_after_edit(ctx, rep)
+
+
+def run_query_after_edit(ctx, rep):
+    L = impl.lk()
+    kind, modes = rep["variant"], rep["modes"]
+    S = np.array([[0.1, 0.8], [0.8, -0.1]], complex)
+    try:
+        m = L.Model(pin_dic={L.Pin("a0"): 0, L.Pin("b0"): 1}, Smatrix=S.copy()).expand_mode(list(modes))
+        st = L.Structure(model=m)
+        if kind == "neighbour-removed":
+            o = L.Structure(model=L.Model(pin_dic={L.Pin("c0"): 0, L.Pin("d0"): 1}, Smatrix=S.copy()).expand_mode(list(modes)))
+            sol = L.Solver()
+            sol.add_structure(st)
+            sol.add_structure(o)
+            sol.connect_all(st, "b0", o, "c0")
+            sol.remove_structure(o)
+            want = {"a0": sorted(modes)}
+        else:
+            m.pin_mapping({L.Pin("a0", mm): L.Pin("in", mm) for mm in modes})
+            want = {"a0": sorted(modes), "b0": sorted(modes)}           # the earlier placement keeps the pins it was built with
+        have = {(p[1].basename, p[1].mode_name) for p in st.pin_list}
+        if have != {(b, mm) for b, ms in want.items() for mm in ms}:
+            ctx.tag("skipped:query-after-edit-pins-differ")
+            return
+        bn = sorted(st.get_pin_basenames())
+        if bn != sorted(want):
+            ctx.violation("C13:structure-basenames", f"Structure.get_pin_basenames after {kind}: {bn}, the structure's pins have base names {sorted(want)}", rep)
+            return
+        for b in ("a0", "b0", "in"):
+            got = sorted(x for x in st.get_pin_modenames(b))
+            if got != want.get(b, []):
+                ctx.violation("C13:structure-modenames", f"Structure.get_pin_modenames({b}) after {kind}: {got}, the structure has {want.get(b, [])}", rep)
+                return
+            gp = sorted((t[1].basename, t[1].mode_name) for t in st.get_pins(b))
+            if gp != sorted((b, mm) for mm in want.get(b, [])):
+                ctx.violation("C13:structure-get-pins", f"Structure.get_pins({b}) after {kind} wrong", rep)
+                return
+    except Exception as e:  # noqa
+        ctx.violation(f"C13:query-raised-{type(e).__name__}", f"query after {kind} raised {type(e).__name__}: {str(e)[:70]}", rep)
+
+
 def generic_factories():
     """user-defined models (`Model(pin_dic, Smatrix)`): non-symmetric matrices, pins on shuffled / non-contiguous rows,
     ports of the matrix that carry no pin at all"""
@@ -242,6 +292,9 @@ def run(ctx):
             if ctx.time_left() < 0:
                 return
             check_expand(ctx, rng, name, factory, params, force_sweep=(r == 0))
+    qrng = ctx.subrng("c13-query")
+    for i in range(ctx.budget(20, 200)):
+        query_after_edit(ctx, qrng, i)
     for i in range(ctx.budget(300, 2500)):
         if ctx.time_left() < 0:
             return
@@ -249,6 +302,11 @@ def run(ctx):
 
 
 def replay(ctx, data):
+    if data["kind"] == "query-after-edit":
+        run_query_after_edit(ctx, data)
+        if ctx.violations:
+            return False, ctx.violations[0]["what"]
+        return True, "queries describe the structure's own pins"
     if data["kind"] == "expand":
         facts = all_factories()
         factory, params = facts[data["block"]]
